@@ -5,6 +5,10 @@ NFn221 == <<2, 2, 1>>
 NFn21 == <<2, 1>>
 Perms3 == {<<30, 10, 20>>}
 NFn332 == <<3, 3, 2>>
+NoTails2 == {<<FALSE, FALSE>>}
+Tails2 == {<<FALSE, FALSE>>, <<TRUE, FALSE>>, <<TRUE, TRUE>>}
+Tails3 == {<<FALSE, FALSE, FALSE>>, <<TRUE, FALSE, FALSE>>, <<FALSE, TRUE, FALSE>>}
+Tails3all == [1..3 -> BOOLEAN]
 St3 == {"kept", "gc", "comdat"}
 St4 == {"kept", "gc", "comdat", "empty"}
 (* address orders unrelated to FDE order: ascending, descending-ish, interleaved *)
